@@ -63,3 +63,16 @@ package jwt
 //@   modifies c.IssuedAt, c.Issuer
 //@   ensures [C04.claim-defaults-leave-jti-fresh] c.JTI == old(c.JTI) && c.ExpiresAt == old(c.ExpiresAt) && c.Subject == old(c.Subject)
 //@   ensures [C04.claim-defaults-leave-jti-fresh] c.IssuedAt == (old(c.IssuedAt) == 0 ? iat : old(c.IssuedAt)) && c.Issuer == (old(c.Issuer) == "" ? issuer : old(c.Issuer))
+
+// ---------------------------------------------------------------- C14: the claims map of an ID token
+// Copy: a new map with the same entries.
+//@ func Copy
+//@   ensures result != nil && fresh(result) && (forall k string :: (k in result) == (k in elements) && ((k in elements) ==> result[k] == elements[k]))
+//@   invariant loop#1 result == pre(result) && (forall k string :: (k in result) == ($visited(k) && (k in elements)) && ($visited(k) && (k in elements) ==> result[k] == elements[k]))
+// ToMap: nonce, at_hash and c_hash of the signed claims are exactly the fields the handlers set - absent when the field is empty,
+// whatever the session's extra claims contain under those names.
+//@ func (*IDTokenClaims).ToMap
+//@   requires c != nil
+//@   ensures [C14.claims-map-binds-nonce-and-hashes] (len(c.Nonce) == 0 ==> !("nonce" in result)) && (len(c.Nonce) > 0 ==> ("nonce" in result) && typeis(result["nonce"], string) && unbox(result["nonce"], string) == c.Nonce)
+//@   ensures [C14.claims-map-binds-nonce-and-hashes] (len(c.AccessTokenHash) == 0 ==> !("at_hash" in result)) && (len(c.AccessTokenHash) > 0 ==> ("at_hash" in result) && typeis(result["at_hash"], string) && unbox(result["at_hash"], string) == c.AccessTokenHash)
+//@   ensures [C14.claims-map-binds-nonce-and-hashes] (len(c.CodeHash) == 0 ==> !("c_hash" in result)) && (len(c.CodeHash) > 0 ==> ("c_hash" in result) && typeis(result["c_hash"], string) && unbox(result["c_hash"], string) == c.CodeHash)
